@@ -314,3 +314,21 @@ fn d13_large_script_body_does_not_overflow_the_stack() {
         .unwrap();
     assert!(status.success(), "tokenising a 4 MB script body killed the process: {:?}", status);
 }
+
+/// D11 (C08/C12, R12.1): a tree holding the empty pattern answers differently before and after
+/// cache(): the lazy branch shortcuts `original.is_empty()` to "matches", the compiled `^$` does not.
+#[test]
+fn d11_empty_pattern_leaf_answers_the_same_cached_and_uncached() {
+    use redirectionio::regex_radix_tree::RegexTreeMap;
+    let mut t = RegexTreeMap::<String>::new(false);
+    t.insert("", "id", "v".to_string());
+    let before: Vec<String> = t.find("x").into_iter().cloned().collect();
+    let before_empty: Vec<String> = t.find("").into_iter().cloned().collect();
+    t.cache(10, None);
+    let after: Vec<String> = t.find("x").into_iter().cloned().collect();
+    let after_empty: Vec<String> = t.find("").into_iter().cloned().collect();
+    assert_eq!(before, after, "find(\"x\") must not change when the cache is warmed");
+    assert_eq!(before_empty, after_empty);
+    assert!(after.is_empty(), "the anchored empty pattern does not match \"x\"");
+    assert_eq!(after_empty, vec!["v".to_string()]);
+}
